@@ -93,8 +93,29 @@ let rec string_of_pos (p : positive) : string =
 let string_of_z (z : z) : string = match z with Z0 -> "0" | Zpos p -> string_of_pos p | Zneg p -> "-" ^ string_of_pos p
 let rec nat_to_int (x : nat) : int = match x with O -> 0 | S y -> 1 + nat_to_int y
 
+(* str::to_uppercase above ASCII: identity except the few code points whose upper case contains ASCII letters *)
+let upper_hi (c : n) : n list =
+  match int_of_n c with
+  | 0x1E97 -> [n_of_int 84; n_of_int 776] | 0xDF -> [n_of_int 83; n_of_int 83] | 0x1F0 -> [n_of_int 74; n_of_int 780]
+  | 0x149 -> [n_of_int 700; n_of_int 78] | 0x131 -> [n_of_int 73] | 0x17F -> [n_of_int 83]
+  | 0xE9 -> [n_of_int 0xC9] | _ -> [c]
+
+let split_lines (b : bytes) : bytes list =
+  let rec go cur acc = function
+    | [] -> List.rev (List.rev cur :: acc)
+    | x :: r -> if int_of_n x = 10 then go [] (List.rev cur :: acc) r else go (x :: cur) acc r in
+  go [] [] b
+
 let run (cols : string array) : string =
   match cols.(0) with
+  | "classify" ->
+      let ty = (match cols.(1) with "103" -> T103 | "202" -> T202 | "205" -> T205 | _ -> TOther) in
+      let opt s = if s = "-" then None else Some (unhex s) in
+      let m = { c_ty = ty; c_lines72 = (if cols.(2) = "-" then [] else split_lines (unhex cols.(2)));
+                c_mur = opt cols.(3); c_flag = opt cols.(4); c_seqb_cust = (cols.(5) = "1"); c_stp = (cols.(6) = "1") } in
+      let b x = if x then "1" else "0" in
+      let meth = (match plugin_method upper_hi m with MReject -> "reject" | MReturn -> "return" | MCover -> "cover" | MStp -> "stp" | MNormal -> "normal") in
+      Printf.sprintf "%s %s %s %s" (b (has_reject upper_hi m)) (b (has_return upper_hi m)) (b (is_cover m)) meth
   | "amount" ->
       (match parse_amount (unhex cols.(1)) with
        | None -> "ERR"
